@@ -52,7 +52,7 @@ def run_case(case, ctx=None):
         if ctx:
             ctx.count("skipped_too_large")
         return
-    fam = pvcase.known_family(case, m)
+    fam = pvcase.known_family(case, m, "C02")
     if fam and not case.get("force"):
         if ctx:
             ctx.exclude(fam)
@@ -129,6 +129,6 @@ def run_shard(ctx):
         except Violation as v:
             ctx.violation(case, str(v))
             return
-    n = 30 if ctx.tier == "quick" else 1000
+    n = 120 if ctx.tier == "quick" else 3000
     ctx.run_given(pvcase.cases(subset=False, ks=(2,)),
                   lambda c: run_case(c, ctx), n, shrinker=pvcase.shrinker)
